@@ -52,7 +52,7 @@ def gen_cases(tier, seed):
     cases += [{"kind": "values", "table": t} for t in ["validators", "enforcers", "parameters", "form_parameters", "pydantic", "inputfile"]]
     n = 140 if tier == "quick" else 2100
     for i in range(n):
-        cases.append({"kind": "stateless", "target": ["inputfile", "inputvalidation", "parameter", "formparameter", "enforcerpool", "validators", "inputvalidation_oneof", "cross_forms"][i % 8], "length": 8 + (i % 5) * 3 if tier == "quick" else 10 + (i % 5) * 5})
+        cases.append({"kind": "stateless", "target": ["inputfile", "inputvalidation", "parameter", "formparameter", "enforcerpool", "validators", "inputvalidation_oneof", "cross_forms", "inputfile_reassigned"][i % 9], "length": 8 + (i % 5) * 3 if tier == "quick" else 10 + (i % 5) * 5})
     return cases
 
 
@@ -107,7 +107,7 @@ def ref_requires(ui, name):
 
 def switch_space():
     opt = [None, (True, True), (True, False), (False, True)]  # (optional, enabled) or absent
-    group = [None, "self-on", "self-off", "other-on", "other-off", "plain"]
+    group = [None, "self-on", "self-off", "other-on", "other-off", "plain", "self-on+sibling-off", "other-on+sibling-off"]  # sibling: a third member switched off on its own
     dep = [None] + [(dt, dopt, dstate) for dt in ("enabled", "disabled", None) for dopt in (None, False, True) for dstate in (True, False)]
     return list(itertools.product(opt, group, dep))
 
@@ -128,11 +128,15 @@ def build_switch_ui(combo):
         other["group"] = "G"
         if group.startswith("self"):
             p["groupOptional"] = True
-            p["enabled"] = group.endswith("on")
+            p["enabled"] = "self-on" in group
         elif group.startswith("other"):
             other["groupOptional"] = True
-            other["enabled"] = group.endswith("on")
+            other["enabled"] = "other-on" in group
         ui["other"] = other
+        if group.endswith("sibling-off"):
+            third = templates.float_parameter(value=3.0, label="third")
+            third.update(group="G", optional=True, enabled=False)
+            ui["third"] = third
     if dep is not None:
         dt, dopt, dstate = dep
         flag = templates.bool_parameter(value=dstate, label="flag")
@@ -513,7 +517,7 @@ def form_snapshot(ui):
 def do_stateless(case, rec, rng, d):
     s = scene(d)
     try:
-        {"inputfile": st_inputfile, "inputvalidation": st_inputvalidation, "inputvalidation_oneof": st_oneof, "parameter": st_parameter, "formparameter": st_formparameter, "enforcerpool": st_enforcerpool, "validators": st_validators, "cross_forms": st_cross_forms}[case["target"]](case, rec, rng, s)
+        {"inputfile": st_inputfile, "inputvalidation": st_inputvalidation, "inputvalidation_oneof": st_oneof, "parameter": st_parameter, "formparameter": st_formparameter, "enforcerpool": st_enforcerpool, "validators": st_validators, "cross_forms": st_cross_forms, "inputfile_reassigned": st_inputfile}[case["target"]](case, rec, rng, s)
     finally:
         s["ws"].close()
         s["ws2"].close()
@@ -534,7 +538,28 @@ def st_inputfile(case, rec, rng, s):
     allv["dat"] = ent["dat"]
     allv["pg"] = ent["pg"]
     allv["obj"] = [r for r in ent["obj"] if r[0] is not s["B"]]
-    long_ = InputFile(ui_json=deepcopy_ui(base_ui(s)), validate=True)
+    if case["target"] == "inputfile_reassigned":
+        # the long-lived object served another form first (or none, only a workspace); then the form under test is assigned to it
+        from geoh5py.ui_json import templates
+        from geoh5py.ui_json.constants import default_ui_json
+
+        if rng.random() < 0.6:
+            first = deepcopy(default_ui_json)
+            first.update({"title": "earlier form", "geoh5": s["ws"], "m": templates.integer_parameter(value=4, label="m"),
+                          "choice": templates.choice_string_parameter(choice_list=("x", "y"), value="x", label="another choice"),
+                          "name": templates.float_parameter(value=0.5, label="a number under the same key")})
+            long_ = InputFile(ui_json=first, validate=True)
+            _ = long_.data
+            if rng.random() < 0.5:
+                verdict(lambda: long_.set_data_value("m", 7))
+            rec.see("forms-reassigned:after-another-form")
+        else:
+            long_ = InputFile(validate=True)
+            long_.geoh5 = s["ws"]
+            rec.see("forms-reassigned:workspace-first")
+        long_.ui_json = deepcopy_ui(base_ui(s))
+    else:
+        long_ = InputFile(ui_json=deepcopy_ui(base_ui(s)), validate=True)
     _ = long_.data
     seq = []
     for _i in range(case["length"]):
